@@ -13,6 +13,8 @@ ASSUME = [
     "progress ('completes' / 'fails as soon as due') is demanded only for histories in which Tor acknowledges the service before "
     "announcing its uploads; for the others only safety (only after own success, at most once, unsubscribed afterwards)",
     "authenticated ephemeral services (which match uploads by a permanent id derived from an RSA key) are not replayed",
+    "every fourth creation is started right after an earlier service's creation completed on the same connection, while the SETEVENTS "
+    "that gives up HS_DESC for it is still unanswered (it is answered at the first step)",
 ]
 
 
@@ -57,7 +59,8 @@ def run(pid, tier, seed):
     jobs += [(rand_script(rng), rng.choice(["first", "all"])) for _ in range(300 if tier == "quick" else 5000)]
     traces, seen = [], set()
     for i, (s, mode) in enumerate(jobs):
-        traces.append(ou.replay(s, mode, "eph" if i % 3 else "fs"))
+        # every fourth creation starts right after another one on the same connection, whose giving up of HS_DESC is unanswered
+        traces.append(ou.replay(s, mode, "eph" if i % 3 else "fs", prelude=(i % 4 == 3)))
         if any(e["a"] == "Uploaded" for e in s) or sum(1 for e in s if e["a"] == "Failed") >= 2:
             seen.add(common.digest([s, mode]))
     rep.cov["evaluations"] = len(traces)
@@ -68,14 +71,14 @@ def run(pid, tier, seed):
                        "hash; non-trivial = contains a confirmed upload or >= 2 failures")
     allknown = dict((f["id"], f) for f in common.open_findings(pid))
     ok = pipeline.validate(rep, pid, "OnionUp", "OnionUpTrace", "OnionUpTrace.cfg", traces, chunk=300, known=allknown,
-                           payload=lambda t: dict(script=pipeline.strip_obs(t), mode=t["mode"], kind=t["kind"]))
+                           payload=lambda t: dict(script=pipeline.strip_obs(t), mode=t["mode"], kind=t["kind"], prelude=t["prelude"]))
     rep.cov["samples"] = [dict(mode=t["mode"], kind=t["kind"], steps=t["steps"][:10]) for t in ok[:2]]
     return rep.finish()
 
 
 def replay(pid, path):
     p = json.load(open(path))
-    t = ou.replay(p["script"], p["mode"], p["kind"])
+    t = ou.replay(p["script"], p["mode"], p["kind"], p.get("prelude", False))
     res, r = tlc.validate_traces("OnionUpTrace", "OnionUpTrace.cfg", [t])
     x = res[0]
     known = set(f["id"] for f in common.open_findings(pid))
